@@ -2,31 +2,37 @@ package main
 
 import (
 	"fmt"
+	"time"
 
-	"verif/lab/ledger"
+	g "github.com/zenon-network/go-zenon/chain/genesis/mock"
+	"github.com/zenon-network/go-zenon/chain/nom"
 	"verif/lab/node"
-	"verif/lab/walk"
 )
 
 func main() {
-	walk.LabConstants()
-	cap := ledger.StartCapture()
-	p, err := node.New("P", node.Options{Producer: true})
-	if err != nil {
-		panic(err)
-	}
+	p, _ := node.New("P", node.Options{Producer: true})
 	defer p.Stop()
-	w := walk.New(p, 7)
-	err = w.Run(150)
-	fmt.Println("run", err, p.Height(), w.Submitted, w.RejectedAtSend, w.Methods)
-	d, err := w.Drain(30)
-	fmt.Println("drained", d, err, p.Problems)
-	for _, l := range w.Log[:40] {
-		fmt.Println(l)
+	p.ProduceN(5)
+	all, _ := p.Detailed(2, 6)
+	f, _ := node.New("F", node.Options{})
+	defer f.Stop()
+	node.Clock.Set(p.Frontier().Timestamp.Add(time.Hour))
+	fmt.Println(f.InsertChain(all[:4]))
+	v, _ := node.Wire(all[4])
+	t := time.Unix(time.Now().Add(time.Hour).Unix()/10*10, 0)
+	v.Momentum.Timestamp, v.Momentum.TimestampUnix = &t, uint64(t.Unix())
+	var key = g.PillarKeys[0]
+	for _, k := range g.PillarKeys {
+		if k.Address == all[4].Momentum.Producer() {
+			key = k
+		}
 	}
-	for _, id := range cap.ChainIDs() {
-		pr := ledger.NewProjector()
-		pr.Observer = ledger.StandardObserver(walk.EpochMomentums)
-		fmt.Println(cap.Project(id, pr), len(pr.Events), pr.Blocks, pr.Momentums, pr.Note)
-	}
+	v.Momentum.Hash = v.Momentum.ComputeHash()
+	v.Momentum.PublicKey = key.Public
+	v.Momentum.Signature = key.Sign(v.Momentum.Hash.Bytes())
+	data, _ := v.Momentum.Serialize()
+	v.Momentum, _ = nom.DeserializeMomentum(data)
+	fmt.Println(v.Momentum.Timestamp, time.Now())
+	err := f.Ver.Momentum(v)
+	fmt.Println("verifier.Momentum:", err)
 }
